@@ -40,7 +40,8 @@ def base(rnd):
         spec.append(t)
     # a field with a Silent argument
     if rnd.random() < 0.5:
-        spec.append({'t': 'transform', 'fields': {'image': [fresh(), ['image', '~mask']]}, 'params': {}, 'inherit': True})
+        sil = '~mask' if rnd.random() < 0.5 else 'verbose=~mask'
+        spec.append({'t': 'transform', 'fields': {'image': [fresh(), ['image', sil]]}, 'params': {}, 'inherit': True})
     return spec, fresh
 
 
@@ -52,6 +53,13 @@ def observe(layer, field, key):
     g = layer._compile(field)
     h = g.get_hash(key)[0]
     return g, h
+
+
+def ids_digest(layer):
+    try:
+        return digest(layer._compile('ids').get_hash()[0])
+    except BaseException as e:  # noqa
+        return 'ERR:' + type(e).__name__
 
 
 def rewrites(spec, fresh, rnd, tmp):
@@ -82,9 +90,10 @@ def rewrites(spec, fresh, rnd, tmp):
     out.append(('insert-inherit-all', lambda: P.build(spec[:pos] + [{'t': 'transform', 'fields': {}, 'params': {}, 'inherit': True}] + spec[pos:], [])[0]))
     out.append(('append-checkids', lambda: P.build(spec + [{'t': 'checkids'}], [])[0]))
     out.append(('append-keep-all', lambda: P.build(spec + [{'t': 'keep', 'ids': IDS}], [])[0]))
+    out.append(('append-drop-none', lambda: P.build(spec + [{'t': 'drop', 'ids': ['x', 'y', 'zz']}], [])[0]))
     out.append(('merge-singleton', lambda: Merge(P.build(spec, [])[0])))
     # change what feeds a Silent argument
-    sil = [i for i, d in enumerate(spec) if d['t'] == 'transform' and any(a.startswith('~') for v in d['fields'].values() for a in v[1])]
+    sil = [i for i, d in enumerate(spec) if d['t'] == 'transform' and any('~' in a for v in d['fields'].values() for a in v[1])]
     if sil:
         def silent_change():
             sp = copy.deepcopy(spec)
@@ -101,12 +110,12 @@ def one(rnd, tmp):
     key = rnd.choice(spec[0]['ids'])
     layer, _ = P.build(spec, [])
     g, h = observe(layer, field, key)
-    rec = {'spec': spec, 'field': field, 'key': key, 'digest': digest(h), 'value': g(key), 'rewrites': []}
+    rec = {'spec': spec, 'field': field, 'key': key, 'digest': digest(h), 'value': g(key), 'ids_digest': ids_digest(layer), 'rewrites': []}
     for name, build in rewrites(spec, fresh, rnd, tmp):
         try:
             l2 = build()
             g2, h2 = observe(l2, field, key)
-            r = {'name': name, 'digest': digest(h2), 'inproc_equal': bool(h2 == h)}
+            r = {'name': name, 'digest': digest(h2), 'inproc_equal': bool(h2 == h), 'ids_digest': ids_digest(l2)}
             if name != 'silent-upstream-change':
                 r['value_equal'] = g2(key) == rec['value']
             rec['rewrites'].append(r)
